@@ -240,6 +240,8 @@ def run_subspace(args):
             ok = eng.explore(harness, validate if getattr(mod, "VALIDATE", True) else None,
                              deadline=deadline)
             res["complete"] = bool(ok)
+            if ok and hasattr(mod, "finalize"):
+                mod.finalize(eng, sp)
             # degraded paths: decide them on a concrete representative
             for vals, choices, why in degraded[:50]:
                 ce, obs, err = _concrete_run(mod, sp, vals, choices)
